@@ -211,6 +211,29 @@ def pool_check(tier: str, stats: Stats) -> list[Violation]:
                 raw3 = server_apply(raw0, p3)
                 if set(anns(raw3)) & new_keys:
                     add('purge-incomplete', f"[{cfg.name}/{fname}] store+purge of {hid[:70]!r} in one patch leaves {sorted(set(anns(raw3)) & new_keys)}", config=cfg.name, idclass='same-patch')
+            # several operations on one id accumulated in ONE patch (as one processing cycle does): the last one wins
+            other = RECORDS[0]
+            for hid in [h for h in pool if len(h) in (1, 2, 62, 64)][:6] + ['a/b', 'h' * 70]:
+                rec = RECORDS[1]
+                body0 = bodies.Body(copy.deepcopy(raw0))
+                p0 = patches.Patch(body=body0)
+                cfg.prog.store(key=hid, record=copy.deepcopy(rec), body=body0, patch=p0)  # type: ignore[arg-type]
+                raw1 = server_apply(raw0, p0)                      # the object already carries `rec`
+                for name, steps in (('purge, then the same record again', ['purge', rec]), ('another record, then the same record again', [other, rec]),
+                                    ('the same record, then purge', [rec, 'purge']), ('another record, then purge, then the record', [other, 'purge', rec])):
+                    body1 = bodies.Body(copy.deepcopy(raw1))
+                    pp = patches.Patch(body=body1)
+                    for st in steps:
+                        if st == 'purge':
+                            cfg.prog.purge(key=hid, body=body1, patch=pp)
+                        else:
+                            cfg.prog.store(key=hid, record=copy.deepcopy(st), body=body1, patch=pp)  # type: ignore[arg-type]
+                    got = cfg.prog.fetch(key=hid, body=bodies.Body(server_apply(raw1, pp)))
+                    want = None if steps[-1] == 'purge' else strip_none(steps[-1])
+                    stats.executions += 1
+                    if (strip_none(dict(got)) if got is not None else None) != want:
+                        add('accumulated-operations', f"[{cfg.name}/{fname}] id {hid[:30]!r} already stored; one patch with [{name}] reads back {got}, expected {want}",
+                            config=cfg.name, seq=name)
             # long ids sharing a prefix do not talk across: each reads back its own record, purging one keeps the other
             long_ids = [h for h in pool if len(h) > 63]
             for a, b in itertools.combinations(long_ids, 2):
